@@ -427,6 +427,8 @@ func runServers(c *vh.Ctx) {
 	runHelloMutations(c, r)
 	runKeyShareLengths(c, r)
 	runKeyShareAfterHRR(c, r)
+	runHelloChangeAfterHRR(c, r)
+	runCBCRecords(c, r)
 	runPskConfigs(c, r)
 	runPostHandshake(c, r)
 	runInjections(c, r)
